@@ -2,18 +2,27 @@ import LettreVerif.Proofs.Headers
 import LettreVerif.Model.Builder
 import LettreVerif.Model.Date
 import LettreVerif.Proofs.Date
+import LettreVerif.Proofs.Peg
 /-!
 # C17 — Mailboxes and typed headers read back equal to what was stored
 
 Proved here: the header map part (lookup, replacement and removal are case-insensitive, one
 entry per name), the Date arithmetic round trip for every instant (`date_roundtrip`: the civil
 fields the header shows are mapped back to the same second; the calendar fields are in range and
-the weekday is the right one), and small facts about typed values.  A full statement that is
-*not* proved and is tied by the correspondence check only (the model's `show` and the PEG
-transcription of the grammar are each compared with the code, and the property itself — display
-then parse gives an equal value — is evaluated on every generated value):
+the weekday is the right one), and the **mailbox grammar round trip for the address**: for every
+mailbox whose address is `dot-atom@dot-atom` (`GoodAddr`: no quoted local part, no domain literal)
+and *every* display name, what `Display` writes is parsed back by the PEG transcription of the
+grammar to a mailbox with the same address (`mailbox_address_roundtrip`), and a displayed list
+parses back to the same addresses in the same order (`mailbox_list_roundtrip`); every display name,
+written as atoms or as a quoted string, is consumed as one phrase (`display_name_is_one_phrase`).
+What is *not* proved and is tied by the correspondence check only: that the name read back equals
+the name stored (up to `normName`), and addresses outside the class (quoted local parts, literals):
 
     theorem mailbox_roundtrip (m : MBox) : parse1 e (show1 m) = some ⟨normName m.name, m.email⟩
+
+(the model's `show` and the PEG transcription are each compared with the code, and the property
+itself — display then parse gives an equal value — is evaluated on every generated value; the
+check also reports for every real mailbox whether its address is in the proved class).
 -/
 namespace LV.C17
 open LV LV.Headers
@@ -98,5 +107,49 @@ theorem date_fields_in_range (t : Nat) :
 example : Date.render (Date.civil 784887151) = "Tue, 15 Nov 1994 08:12:31 +0000" ∧
     Date.toSecs (Date.civil 951782400) = 951782400 ∧ Date.render (Date.civil 951782400) = "Tue, 29 Feb 2000 00:00:00 +0000" ∧
     Date.toSecs (Date.civil 253402300799) = 253402300799 := by decide
+
+/-! ## the mailbox grammar -/
+open LV.Mailbox LV.PegProof in
+/-- **Display then parse returns the same address, whatever the name.** For every mailbox whose address is in the
+    class (`local@domain`, both sides dot-atoms of the grammar, accepted by `Address::new`): `Display` does not fail,
+    and `FromStr` (the grammar, then `Address::new` on the two parts) reads the text back as a mailbox with exactly
+    that address.  The name is arbitrary: any characters, including quotes, backslashes, CR, LF and NUL. -/
+theorem mailbox_address_roundtrip (e : Address.Env) (m : MBox) (hg : GoodAddr e m.email) :
+    ∃ t m', show1 m = some t ∧ parse1 e t = some m' ∧ m'.email = m.email := by
+  obtain ⟨t, ht⟩ := LV.Builder.showList_some [m]
+  simp only [showList] at ht
+  obtain ⟨m', h1, h2⟩ := parse1_show1 e m t hg ht
+  exact ⟨t, m', ht, h1, h2⟩
+
+open LV.Mailbox LV.PegProof in
+/-- **A displayed list parses back to the same addresses in the same order** — no mailbox lost, duplicated, merged
+    with a neighbour or reordered, whatever the names (a name containing `,` or `<` is written quoted and is read as
+    one phrase). -/
+theorem mailbox_list_roundtrip (e : Address.Env) (l : List MBox) (hne : l ≠ []) (hg : ∀ m ∈ l, GoodAddr e m.email) :
+    ∃ t l', showList l = some t ∧ parseList e t = some l' ∧ l'.map (·.email) = l.map (·.email) := by
+  obtain ⟨t, ht⟩ := LV.Builder.showList_some l
+  obtain ⟨l', h1, h2⟩ := parseList_showList e l t hne hg ht
+  exact ⟨t, l', ht, h1, h2⟩
+
+open LV.Mailbox LV.PegProof LV.Peg in
+/-- **Every display name is written as text the grammar reads as one phrase**, up to the ` <` before the address:
+    atoms when every character allows it, a quoted string with quoted-pairs otherwise. -/
+theorem display_name_is_one_phrase (n rest : List Char) (hne : trim n ≠ []) :
+    ∃ t v, writeWord true (trim n) = some t ∧ phrase opts (t ++ ' ' :: '<' :: rest) = some (v, ' ' :: '<' :: rest) :=
+  display_name_read_back n rest hne
+
+open LV.Mailbox LV.PegProof in
+/-- the decidable form of the class is sound: what the correspondence check counts as "in the class" is -/
+theorem address_class_sound (e : Address.Env) (u d : List Char) (h : addrClassB u d = true)
+    (hnew : Address.new e u d = .ok ⟨u, d⟩) : GoodAddr e (u ++ '@' :: d) := addrClassB_sound e u d h hnew
+
+open LV.Mailbox LV.PegProof LV.Peg in
+/-- non-vacuity: a mailbox in the class with a name that needs quoting; the round trip evaluated -/
+example :
+    let e : Address.Env := ⟨fun c => isAlpha c || isDigit c, fun _ => none, fun _ => false⟩
+    GoodAddr e ['a', '.', 'b', '@', 'c', '.', 'd'] ∧
+    (show1 ⟨some ['x', ',', '"', 'y'], ['a', '.', 'b', '@', 'c', '.', 'd']⟩).bind (parse1 e) =
+      some ⟨some ['x', ',', '"', 'y'], ['a', '.', 'b', '@', 'c', '.', 'd']⟩ :=
+  ⟨addrClassB_sound _ ['a', '.', 'b'] ['c', '.', 'd'] (by decide) (by rfl), by decide⟩
 
 end LV.C17
